@@ -13,7 +13,9 @@ def gen_member(r):
     # C08 excludes the cross-path signals, references and line-rewriting functions: the generator
     # has none of them
     ident = r.choice([None, None, "m" + str(r.randint(1, 99))])
-    return {"match": mp, "ident": ident}
+    # a member's own mode settings must hold in every kind of run
+    nomatch = r.random() < 0.2
+    return {"match": mp, "ident": ident, "nomatch": nomatch}
 
 
 def gen_case(seed, i):
@@ -34,7 +36,12 @@ def gen_case(seed, i):
 
 
 def member_text(m, path=""):
-    c = f"~ id: {m['ident']} ~ " if m["ident"] else ""
+    parts = []
+    if m["ident"]:
+        parts.append(f"id: {m['ident']}")
+    if m.get("nomatch"):
+        parts.append("return-mode: no-matches")
+    c = ("~ " + " ".join(parts) + " ~ ") if parts else ""
     return f"{c}${path}[{m['scan']}][{m['match']}]"
 
 
@@ -115,8 +122,9 @@ def case_group(case):
 
                 solo = []
                 for k in order:
-                    res["disagree"] += compare_with_model(f"member {k} alone", members[k]["scan"], recs, "collect", alone[k])
-                    mr = model_run(members[k]["scan"], recs, "collect", alone[k])
+                    mcfg = {"cwnm": bool(members[k].get("nomatch"))}
+                    res["disagree"] += compare_with_model(f"member {k} alone", members[k]["scan"], recs, "collect", alone[k], cfg=mcfg)
+                    mr = model_run(members[k]["scan"], recs, "collect", alone[k], cfg=mcfg)
                     solo.append((set(mr.get("yielded", [])), mr.get("seen", 0)))
                 want = []
                 for i, rec in enumerate(recs):
@@ -131,7 +139,7 @@ def case_group(case):
                 # the stop point of the group run: after the record on which the last member stopped
                 # (compare through the model, which implements exactly that loop)
                 mreq = {"op": "byline", "recs": recs, "if_all_agree": case["if_all_agree"],
-                        "members": [{"scan": ms[pos]["scan"], "cwnm": False, "script": cp._verif_members[pos]["script"]}
+                        "members": [{"scan": ms[pos]["scan"], "cwnm": bool(ms[pos].get("nomatch")), "script": cp._verif_members[pos]["script"]}
                                     for pos in range(len(ms))]}
                 mm = driver.ask(mreq)
                 if "error" not in mm:
